@@ -173,3 +173,30 @@ CHECKS["C03"] = dict(
         level_note="Trusts sanitizers to surface memory errors; hang detection is a 120 s CPU-time budget per case.",
     ),
 )
+
+CHECKS["C19"] = dict(
+    harnesses={"pbt": dict(src="c19_sysex.cpp", cfg="asan", kind="rc"),
+               "fuzz": dict(src="c19_sysex.cpp", cfg="asan", kind="fuzz", extra_flags=["-DVERIF_FUZZ"])},
+    quick=[dict(name="pbt", harness="pbt", workers=8, args=["--n", "6000"])],
+    thorough=[dict(name="pbt", harness="pbt", workers=16, args=["--n", "150000"], timeout=7200),
+              dict(name="fuzz", harness="fuzz", workers=8, args=["-max_total_time=300", "-max_len=80"], seeds=False, timeout=3600)],
+    rule="messages = the seven recognised SysEx forms (GM on/off, master volume, GS system-mode set, GS reset, GS drum part, XG on) instantiated with device bytes "
+         "(own id, broadcast, other id, wrong high nibble, random) and values, then one mutation (drop/duplicate/insert/change a byte at every position, checksum +-1, "
+         "truncate, trailing byte, byte after F7, bit flip) or a random string <=64 bytes; prior state = device id 0..15, a mode set by a valid message, up to 8 "
+         "note/controller/bend/program ops incl. pedal-held notes. Verdict from an independent validator; accepted messages must have exactly the documented effect, "
+         "rejected ones must return 0, leave the full state snapshot identical and cause zero register writes. Non-trivial = a single-mutation neighbour (or unmutated "
+         "instance) of a recognised message, or a valid message addressed to a non-zero configured id; distinct by FNV-64 of the case.",
+    assumptions=[
+        "Universal messages match the configured id or 0x7F; Roland and Yamaha messages match device byte 0x10|id; Roland/Yamaha messages sent to 0x7F are excluded from the verdict (counted)",
+        "messages containing data bytes >= 0x80 between F0 and F7 are outside the statement: executed for memory safety only and counted as excluded",
+        "a mode switch is required to reset controllers (not program/bank) and to leave no note sounding",
+    ],
+    min_nontrivial={"quick": 2000, "thorough": 20000},
+    manifest=dict(
+        engine="rapidcheck (+ libFuzzer in thorough)",
+        technique="mutation-based property testing of SysEx messages against an independent validator (reference model) with full-state snapshot and register-tap comparison",
+        level_text="Every generated message is classified by an independently written validator (framing, manufacturer, addressing, exact length, Roland checksum); the "
+                   "implementation's return value, resulting mode/controllers/notes and register traffic are compared with the expected effect or with 'nothing changed'.",
+        level_note="Trusts the validator's reading of the five message formats and the snapshot of private channel state.",
+    ),
+)
